@@ -6233,6 +6233,12 @@ mz_bool mz_zip_writer_add_mem_ex_v2(mz_zip_archive * pZip, const char * pArchive
 	}
 
 	level = level_and_flags & 0xF;
+
+	if ((!(level_and_flags & MZ_ZIP_FLAG_COMPRESSED_DATA)) && (buf_size <= 3)) {
+		/* Tiny buffers are stored as they are (see below): decide it before the method is written to the header */
+		level = 0;
+	}
+
 	store_data_uncompressed = ((!level) || (level_and_flags & MZ_ZIP_FLAG_COMPRESSED_DATA));
 
 	if ((!pZip) || (!pZip->m_pState) || (pZip->m_zip_mode != MZ_ZIP_MODE_WRITING) || ((buf_size) && (!pBuf)) || (!pArchive_name) || ((comment_size) && (!pComment)) || (level > MZ_UBER_COMPRESSION)) {
